@@ -85,6 +85,8 @@ type Sim struct {
 	OnQuiescent []func()
 	// Observers of bus events (called under the world lock).
 	BusObservers []func(ev nats.BusEvent)
+	noBubble     bool // the engine runs outside a synctest bubble (no simulated clock)
+	NoTick       bool // steps take no simulated time (engines that probe exact instants)
 
 	stepMirror atomic.Int64
 
@@ -124,6 +126,17 @@ func NewSim(t *testing.T, prop string, seed uint64, wl, sch *Tape) *Sim {
 	uuid.SetRand(&seedReader{state: mix(seed, 77)})
 	mrand.Seed(int64(mix(seed, 78) >> 1))
 	s.start = time.Now()
+	// canary for the determinism self-test: the iteration order of a map too large for one group of slots depends on
+	// the key of the map hash function, which the build overlay fixes (it is per-process random otherwise)
+	canary := map[string]int{}
+	for i := 0; i < 40; i++ {
+		canary[fmt.Sprintf("k%d", i)] = i
+	}
+	var ch uint64 = 1
+	for _, v := range canary {
+		ch = mix(ch, uint64(v))
+	}
+	s.EvLog = append(s.EvLog, fmt.Sprintf("0000 t=0s map-order canary %016x", ch))
 	s.schedH = 1469598103934665603
 	s.stateH = 1469598103934665603
 	return s
@@ -337,6 +350,14 @@ func (s *Sim) noteSched(key string) {
 // enabled (the caller decides about time).
 func (s *Sim) StepOnce(random bool) bool {
 	s.quiesce()
+	if !s.noBubble && !s.NoTick {
+		// every step takes one simulated microsecond: tickers that the code under test starts in different steps are then
+		// never due at exactly the same instant (in simulated time whole chains of work take no time at all, so a ticker
+		// started by a client and the one of the manager that launched it would otherwise fire together for ever, and which
+		// of the two goroutines runs first is not the simulator's choice)
+		time.Sleep(time.Microsecond)
+		s.quiesce()
+	}
 	for _, f := range s.AfterStep {
 		f()
 	}
